@@ -199,6 +199,8 @@ impl<T> HalfLock<T> {
             // switch once more; otherwise a steady stream of overlapping readers entering the
             // current slot could keep us here forever. This happens at most once per barrier.
             if seen_zero[(gen % 2) ^ 1] && !seen_zero[gen % 2] {
+                #[cfg(sighook_verif)]
+                crate::verif::event("barrier_reflip", gen as u64, 0);
                 gen = self.generation.fetch_add(1, Ordering::SeqCst).wrapping_add(1);
             }
 
